@@ -34,8 +34,8 @@ def dtype_guard(rc: RuleCtx, rule: str, modules):
         for e in ma.events.get(q, []):
             if e.kind == "dtype":
                 res.violation(rule, fi.module, fi.name, e.node,
-                              f"{q} stores a float value into an array that inherits the dtype of '{e.param}' ({e.how}): on an integer-typed curve the values are "
-                              "truncated before the optimum is taken", ast.unparse(e.node)[:100] if hasattr(e.node, "lineno") else "",
+                              f"{q} puts values into an array that inherits the dtype of '{e.param}' ({e.how}): with an integer-typed (or narrow) input the values are "
+                              "truncated / wrapped before they are used", ast.unparse(e.node)[:100] if hasattr(e.node, "lineno") else "",
                               "a float array (np.zeros(n), a list)", construct=f"dtype {q}")
     res.ok(rule, "detectors:dtype", f"{n} functions: no float store into an argument-typed array")
 
